@@ -44,7 +44,27 @@ fn cfg_file(kind: u64, pack: u32) -> ConfigFile {
 }
 
 /// chunk list of one file under the repository's chunker: (id, start, len)
+/// chunks by the reference chunker (Chunker.tla, independent of the library's chunk iterator); fixed-size chunking is
+/// trivial enough to be computed here as well
 fn chunks_of(cfg: &ConfigFile, data: &[u8]) -> Vec<(Id, usize, usize)> {
+    let lens: Vec<usize> = if cfg.chunker == Some(Chunker::FixedSize) {
+        let sz = cfg.chunk_size.unwrap();
+        (0..data.len()).step_by(sz).map(|st| sz.min(data.len() - st)).collect()
+    } else {
+        let (avg, min, max) = (cfg.chunk_size.unwrap(), cfg.chunk_min_size.unwrap(), cfg.chunk_max_size.unwrap());
+        crate::drivers::chunker::ref_chunk_lens(data, min, max, avg as u64 - 1, POLY)
+    };
+    let mut out = Vec::new();
+    let mut st = 0;
+    for l in lens {
+        out.push((sha256(&data[st..st + l]), st, l));
+        st += l;
+    }
+    out
+}
+
+#[allow(dead_code)]
+fn chunks_of_real(cfg: &ConfigFile, data: &[u8]) -> Vec<(Id, usize, usize)> {
     let mut out = Vec::new();
     let mut st = 0;
     for c in chunk_iter(cfg, std::io::Cursor::new(data.to_vec()), data.len()).unwrap() {
